@@ -298,12 +298,21 @@ let verdict case impl =
        (* A broken correspondence found while the runner's own runtime was starved (stall >= 200 ms) is a
           counted not-run ONLY when it has one of the shapes starvation explains:
             (P) the pool log order (events of different connection tasks of the mock, logged late);
-            (K) a spurious keepalive timeout / a close that did not reach the mock in time: the case has a
-                keepalive in its trace and the model agrees with every result once each
-                err:broken.KeepaliveTimeout is taken out of the comparison.
+            (K) a client-side keepalive timeout that the mock's trace does not account for (keepalive answered
+                but read too late by the starved client; keepalive not yet read by the mock; the client's close
+                not yet seen by the mock): the model agrees with every result once the results
+                err:broken.KeepaliveTimeout are taken out of the comparison -- and, for idempotent requests
+                (retried after the timeout, no connection left), the results err:pool, provided the client
+                itself closed a connection (X, no F/R) whose model run stays Open.
           Every other diff stays a diff; a viol is never converted. *)
        let starved_skip why = Printf.sprintf "ok skipped runner-starved-%dms (%s)" stall why in
-       let has_ka = List.exists (List.exists (function TIn (_, _, true) -> true | _ -> false)) conns in
+       let client_closed_open_conn = lazy (List.exists (fun t ->
+           List.exists (function TClose -> true | _ -> false) t
+           && List.exists (function TOut _ -> true | _ -> false) t
+           && not (List.exists (function TFin | TRst -> true | _ -> false) t)
+           && (match (simulate None t).c_status with Open -> true | _ -> false)) conns) in
+       let ka_res = List.mem "err:broken.KeepaliveTimeout" res in
+       let pool_after_ka = idem && List.mem "err:pool" res && Lazy.force client_closed_open_conn in
        match !viol with
        | v :: _ -> "viol " ^ v
        | [] ->
@@ -326,7 +335,7 @@ let verdict case impl =
                | Broken e | TearingDown e | Draining e -> classes_of_err e
                | Open -> []) (candidates t)) conns in
          let agrees relax =
-           let ka_out r = relax && r = "err:broken.KeepaliveTimeout" in
+           let ka_out r = relax && (r = "err:broken.KeepaliveTimeout" || (pool_after_ka && r = "err:pool")) in
            let matches m e r = ka_out r || matches m e r in
            let unseen_ok = ref true in
            for m = 1 to nres do
@@ -373,7 +382,7 @@ let verdict case impl =
                    let o = List.fold_left (fun acc st -> match acc with Some _ -> acc | None -> outcome_of (n_of_rid (i + 1)) st.c_done) None finals in
                    match expect_of_outcome px idem o with Some e -> show e | None -> "pending")
                 else show (expectation_multi px finals (i + 1))) res)) in
-           if stall >= 200 && has_ka && List.mem "err:broken.KeepaliveTimeout" res && agrees true
+           if stall >= 200 && (ka_res || pool_after_ka) && agrees true
            then starved_skip (String.sub d 0 (min 60 (String.length d))) else d
          end)
   | _ -> "error unknown-case"
